@@ -125,6 +125,9 @@ def specs_for0(tier):
          # a weak poloidal field (flux in mWb, TORPEX-like): 1/|grad psi| is a thousand times larger, nothing in the property depends on the
          # unit of psi (the X-point search needs its absolute |Bp|^2 tolerance scaled with it)
          gridlab.tokamak_spec("lsn", options={"xpoint_refine_atol": 1e-16}, psi_sign=1.0e-3, extract=ex)]
+    # worker processes: the radial lines are followed in parallel (those near the X-point take longest and finish last) and must be assembled
+    # under their own poloidal index
+    S.append(gridlab.tokamak_spec("lsn", options={"number_of_processors": 3}, extract=ex))
     # a grid on which no two options that could be confused coincide (see gridlab.odd_spec)
     S.append(gridlab.odd_spec("lsn", True, extract=ex))
     if tier == "thorough":
